@@ -187,7 +187,7 @@ Proof.
       unfold packer_measure in *. cbn [inflight cur wq wip] in *.
       set (a := if is_nil_b (if mem i (cur p) then cur p else cur p ++ [i]) then 0 else 1) in *.
       set (b := if is_nil_b (cur p) then 0 else 1) in *.
-      assert (a <= 1) by (subst a; destruct (is_nil_b _); auto).
+      assert (a <= 1) by (unfold a; destruct (is_nil_b (if mem i (cur p) then cur p else cur p ++ [i])); lia).
       clearbody a b. lia.
   - set (p := get s t) in *. destruct (cur p) as [|c cs] eqn:C; [discriminate|].
     destr_if; [|discriminate]. injection St as <-.
